@@ -210,6 +210,7 @@ type HarnessResult struct {
 	AssumeCuts    int
 	Disagreements []string
 	SolverErrors  int
+	OverApprox    int // paths explored although a feasibility query on them was answered unknown
 }
 
 type Violation struct {
@@ -348,12 +349,22 @@ func (e *Engine) RunHarness(pkgPath, fnName string, opts *HarnessOpts) (*Harness
 		}
 		switch p.Outcome {
 		case "panicked":
-			res.Violations = append(res.Violations, Violation{Kind: "panic", Label: "no-panic", Pos: p.PanicPos, Trace: p.Trace, Model: p.Model, Msg: p.Detail})
+			if p.Uncertain && len(p.Model) == 0 {
+				// the path's feasibility was never established (no model): not a
+				// counterexample, not a pass
+				res.Inconclusive = append(res.Inconclusive, fmt.Sprintf("path %s: panic at %s on a path whose feasibility is undecided: %s", p.Trace, p.PanicPos, short(p.Detail, 200)))
+			} else {
+				res.Violations = append(res.Violations, Violation{Kind: "panic", Label: "no-panic", Pos: p.PanicPos, Trace: p.Trace, Model: p.Model, Msg: p.Detail})
+			}
 		case "unsupported", "bound-exceeded", "engine-error":
 			res.Inconclusive = append(res.Inconclusive, fmt.Sprintf("path %s: %s: %s", p.Trace, p.Outcome, p.Detail))
 		}
 		if p.Uncertain {
-			res.Inconclusive = append(res.Inconclusive, fmt.Sprintf("path %s: a feasibility query was answered unknown (both sides explored)", p.Trace))
+			// A feasibility query answered unknown makes the engine explore both
+			// sides: the set of paths is over-approximated, which keeps every
+			// discharged assertion sound (an infeasible path only adds vacuous
+			// obligations).  It is recorded, not counted as inconclusive.
+			res.OverApprox++
 		}
 	}
 	return res, nil
